@@ -39,8 +39,8 @@ def run(ctx):
                     + ('; + bulk FQ, kHeavy, recursion' if thorough else ''))
     rng = random.Random(ctx.seed * 7919 + 5)
     g = tc.Gen(rng)
-    n = 6 if thorough else 2
-    scens = [g.single(throws=0.5, cancel=0.15, nested=0.4) for _ in range(60 if thorough else 9)]
+    n = 6 if thorough else 3
+    scens = [g.single(throws=0.5, cancel=0.15, nested=0.4) for _ in range(60 if thorough else 14)]
     r = tc.run_scenarios(ctx, exe, [
         ('deterministic thrower programs', ALWAYS, 1),
         ('fixed programs', FIXED if thorough else FIXED[ctx.seed % 2::2], n),
